@@ -30,10 +30,15 @@ class FakeManager:
         MANAGERS.add(self)
 
     def start(self):
+        # like the real one: the server process is spawned, the caller waits for its address, and only then does the object get its
+        # `shutdown` — a caller that is interrupted in between holds an object without one, and a process nobody will stop
+        sim.S.yield_point('manager.start', self)
         self.started = True
         sim.S.ledger['manager_started'] += 1
+        sim.S.yield_point('manager.start+', self)
+        self.shutdown = self._shutdown
 
-    def shutdown(self):
+    def _shutdown(self):
         self.started = False
         if sim.S is not None:
             sim.S.ledger['manager_stopped'] += 1
